@@ -62,8 +62,20 @@ type gossipRow struct {
 }
 
 var gossipRows = []gossipRow{
-	{"GossipVrx", "vg.Vertex", "vg.Gossipers", "gossipVertex", "vg"},
-	{"GossipTrx", "tg.Trx", "tg.Gossipers", "gossipTransaction", "tg"},
+	{"GossipVrx", "$msg.Vertex", "$msg.Gossipers", "gossipVertex", "$msg"},
+	{"GossipTrx", "$msg.Trx", "$msg.Gossipers", "gossipTransaction", "$msg"},
+}
+
+// bound replaces the logical message name by the handler's actual request parameter.
+func (g gossipRow) bound(fn *ssa.Function) gossipRow {
+	if len(fn.Params) < 3 {
+		return g
+	}
+	n := fn.Params[2].Name()
+	g.item = strings.Replace(g.item, "$msg", n, 1)
+	g.listPath = strings.Replace(g.listPath, "$msg", n, 1)
+	g.msg = strings.Replace(g.msg, "$msg", n, 1)
+	return g
 }
 
 // verifiedSet finds set := g.verifyGossipers(hash(item), list) in fn.
@@ -90,6 +102,7 @@ func runC11(w *World, r *Report) {
 			continue
 		}
 		fn := f.fn
+		row = row.bound(fn)
 		set, why := verifiedSet(fn, row)
 		if set == nil {
 			r.bad("process-once", row.handler+"/verified-set", w.Pos(fn.Pos()), "the verified gossiper set of the processed item must exist", why)
@@ -387,6 +400,7 @@ func runC12(w *World, r *Report) {
 	r.rule("hash-bound-to-item", "handlers verify the list against the hash of the very item they process and forward", 2)
 	for _, row := range gossipRows {
 		if f := w.fx(r, "gossip", "gossiper", row.handler); f != nil {
+			row = row.bound(f.fn)
 			set, why := verifiedSet(f.fn, row)
 			r.check(set != nil, "hash-bound-to-item", row.handler, w.Pos(f.fn.Pos()), "verifyGossipers(hash of "+row.item+", "+row.listPath+")", why)
 		}
